@@ -721,7 +721,14 @@ def run(ctx, replay=None):
         "advertised keys); a case is distinct by (phase, action or mode, keys set, family size). Configuration-drift stream "
         "(harness/props_ext/c04_drift.py): aligned multi-operand nodes over nested / interleaved / broadcasting operand chunkings, "
         "chunks='auto' sources, rechunk('auto'), config-driven tree reductions, built under A, metadata read or not, then one lazily "
-        "read option (enumerated from the source) changed and optimize-graph on/off: blocks under the advertised keys and compute() vs NumPy"
+        "read option (enumerated from the source) changed and optimize-graph on/off: blocks under the advertised keys and compute() vs NumPy. "
+        "In-place stream (harness/props_ext/c09_inplace.py): scripts over ONE collection object: materialize (compute / persist / graph / keys / "
+        ".dask / dask.compute / dask.persist / np.asarray / dask.optimize / lowered / Frisky keys / only a derived collection) -> in-place update "
+        "(x[key]=v for key in dask mask of x / of another array / lower-rank dask mask / NumPy mask / ints / slices / Ellipsis / list / NumPy and "
+        "dask integer arrays, value scalar / 0-d / NumPy / dask / computed from x; ufunc out= with and without where=; reduction out=; _chunks "
+        "setter; compute_chunk_sizes) -> read (compute / persist / block by block under the advertised keys / np.asarray / dask.compute), "
+        "1-3 rounds, with snapshots (x+k, x.copy()) that must keep their values; grid of key kind x materialization kind in every run; a "
+        "failure needs the twin script without the materializations to agree with NumPy"
     )
     ctx.assumptions = [
         "the Lean theorems are about an abstract system: per-rule soundness for every configuration value (RuleSound) and "
@@ -740,6 +747,10 @@ def run(ctx, replay=None):
 
             for sig, detail in c04_drift.run_c09(ctx, case) or []:
                 ctx.fail(sig, case, detail)
+        elif case.get("kind") == "inplace":  # in-place updates after materialization (harness/props_ext/c09_inplace.py)
+            from harness.props_ext import c09_inplace
+
+            c09_inplace.replay(ctx, case)
         elif case.get("kind") == "config":
             for sig, detail in run_config_case(ctx, case) or []:
                 ctx.fail(sig, case, detail)
@@ -791,6 +802,13 @@ def run(ctx, replay=None):
                 except Exception:
                     pass
             ctx.fail(sig, dict(small, kind="history"), detail)
+
+    # ---------------- in-place updates (every key kind of __setitem__, ufunc / reduction out=, _chunks setter,
+    # compute_chunk_sizes) of a collection object that was materialized BEFORE (compute / persist / graph / keys / …):
+    # NumPy oracle + the twin script without the materializations (harness/props_ext/c09_inplace.py)
+    from harness.props_ext import c09_inplace
+
+    c09_inplace.run_stream(ctx, ctx.scale(60, 900), ctx.scale(10, 90))
 
     # ---------------- clean state vs warm: the same programs computed first in a clean state
     for k, hist in enumerate(epoch[: ctx.scale(6, 40)]):
